@@ -111,6 +111,7 @@ fn compile_time_abi_check_size(typ: &Type) -> Option<(usize, usize)> {
 static ID_GEN: AtomicU64 = AtomicU64::new(0);
 
 fn emit_future_helpers(
+    version: u32,
     wrapped_in_pin: bool,
     output_type: TokenStream,
     extra_definitions: &mut HashMap<WrapperKey, (ClosureFutureWrapperNames, TokenStream)>,
@@ -137,6 +138,7 @@ fn emit_future_helpers(
     };
 
     let futureWrapper = futurer_wrapper_trait_name;
+    let version = Literal::u32_unsuffixed(version);
 
     let unpin_impl = unpin.then(|| {
         quote! {
@@ -206,7 +208,7 @@ fn emit_future_helpers(
 
         }
 
-        #[savefile_abi_exportable(version = 0)]
+        #[savefile_abi_exportable(version = #version)]
         pub trait #futureWrapper {
             fn abi_poll(self: Pin<&mut Self>, waker: Box<dyn Fn()+Send+Sync>) -> ::std::option::Option<#output_type>;
         }
@@ -1506,7 +1508,7 @@ impl ArgType {
             }
             ArgType::Future(pin, output, send, sync, unpin) => {
                 let wrapper_names =
-                    emit_future_helpers(*pin, output.clone(), &mut *extra_definitions, *send, *sync, *unpin);
+                    emit_future_helpers(version, *pin, output.clone(), &mut *extra_definitions, *send, *sync, *unpin);
 
                 let futurer_wrapper_struct_name = wrapper_names.wrapper_struct_name;
                 let temp_trait_type = wrapper_names.trait_name;
